@@ -5,6 +5,7 @@ package main
 import (
 	"fmt"
 	"os"
+	"strings"
 	"go/types"
 
 	"golang.org/x/tools/go/ssa"
@@ -315,6 +316,13 @@ func (ex *Exec) blockUntil(ready func() bool, what string, site ssa.Instruction)
 
 // syncPoint is a potential preemption point (only when schedule exploration is on).
 func (ex *Exec) syncPoint(site ssa.Instruction) {
+	key := ex.siteKey(site)
+	if key != "" {
+		if ex.spCount == nil {
+			ex.spCount = map[string]int{}
+		}
+		ex.spCount[key]++
+	}
 	if !ex.schedOn || ex.switches >= ex.maxSwitch {
 		return
 	}
@@ -332,8 +340,31 @@ func (ex *Exec) syncPoint(site ssa.Instruction) {
 	k := ex.choose(len(cands), func(int) *Term { return nil }, site)
 	if k != 0 {
 		ex.switches++
+		if key != "" {
+			// the current goroutine is preempted right before this synchronisation operation: recorded so
+			// that the native confirmation run can hold the goroutine at the same place (check.go)
+			ex.preempts = append(ex.preempts, Preempt{Site: key, Occ: ex.spCount[key]})
+		}
 		ex.switchTo(cands[k])
 	}
+}
+
+// Preempt: the Occ-th execution (counted over all goroutines) of the synchronisation operation at
+// Site (file.go:line of a /repo source file) was preempted.
+type Preempt struct {
+	Site string `json:"site"`
+	Occ  int    `json:"occ"`
+}
+
+func (ex *Exec) siteKey(in ssa.Instruction) string {
+	if in == nil {
+		return ""
+	}
+	p := ex.eng.P.prog.Fset.Position(in.Pos())
+	if !p.IsValid() || !strings.HasPrefix(p.Filename, repoDir+"/") || strings.Contains(p.Filename, "zz_verif") {
+		return ""
+	}
+	return fmt.Sprintf("%s:%d", strings.TrimPrefix(p.Filename, repoDir+"/"), p.Line)
 }
 
 // yield lets every other runnable thread run until all are blocked or done (vQuiesce).
